@@ -135,6 +135,28 @@ def observe(v, env):
 
 _ENVS = {}
 _HARNESS = {}
+_CACHE = {}
+
+
+def concrete(key, fn):
+    """Build (once per process) a value from CONCRETE inputs only, outside CrossHair's tracer.
+    Used for the fixed pre-state of a condition (an immutable container built from constants): it
+    is identical on every path, so re-executing its construction symbolically buys nothing.
+    Never use for anything that depends on a symbolic parameter."""
+    if key in _CACHE:
+        return _CACHE[key]
+    try:
+        from crosshair.tracers import NoTracing, is_tracing
+        tracing = is_tracing()
+    except Exception:  # noqa: BLE001
+        tracing = False
+    if tracing:
+        with NoTracing():
+            v = fn()
+    else:
+        v = fn()
+    _CACHE[key] = v
+    return v
 
 
 def env(model=True):
@@ -182,7 +204,13 @@ def run(prop, cond, args, model=True):
     _PATHS['n'] += 1
     e = env(model)
     c = harness(prop).CONDS[cond]
-    got, exp = c.body(e, **args, **c.fixed)
+    try:
+        got, exp = c.body(e, **args, **c.fixed)
+    except Exception:  # noqa: BLE001
+        # an exception the harness did not anticipate: report the inputs as a counterexample (the
+        # replay on the real library decides whether it is genuine); ModelGap is a BaseException
+        # and propagates (inconclusive)
+        return False
     return deep_eq(got, exp)
 
 
@@ -195,5 +223,5 @@ def run_pair(prop, cond, args, model):
     except e.ModelGap as ex:
         return ('GAP', str(ex)), None
     except Exception as ex:  # noqa: BLE001
-        return ('UNEXPECTED-EXCEPTION', type(ex).__name__, str(ex)[:200]), None
+        return ('UNEXPECTED-EXCEPTION', type(ex).__name__), None
     return got, exp
